@@ -33,7 +33,8 @@ RULE = ('(a) timers: op histories (register single/repeating with interval from 
         'levels, the value ExecuteTimeouts returns compared as key rv; 8..100 cancelled-but-still-queued timers followed '
         'by a self-cancelling repeating timer that returns true / a cancel from another callback / from outside; idle RunOnce(block) with the poller really '
         'sleeping on the virtual clock (epoll_wait/select interposed: the timeout the poller passes advances the '
-        'clock), sub-millisecond distances to the deadline, early=1 if a callback runs before registration+interval.  non-trivial = at least one callback ran and at least one state-changing op (register/cancel) '
+        'clock), sub-millisecond distances to the deadline, early=1 if a callback runs before registration+interval; whole iterations in which a loop callback (RunInLoop) '
+        'and/or a ready descriptor\'s on_data handler register timers (Model.runonce).  non-trivial = at least one callback ran and at least one state-changing op (register/cancel) '
         'happened; distinct = distinct model output line.  (b) pollers: see gen_poller.py RULE.')
 ASSUMPTIONS = ['operator new does not fail',
                'callbacks honour the API contract: CancelTimeout is only called with the id of a timer that is '
@@ -47,7 +48,7 @@ TRUSTED = ['modelled rather than verified: SelectServer::Register{Single,Repeati
            'CancelTimeout, ExecuteTimeouts, Event, SingleEvent::Trigger, RepeatingEvent::Trigger}',
            'harness interposes operator new/delete for objects of sizeof(Event subclass) during Register calls to '
            'choose the address deterministically; virtual time through a Clock subclass']
-SPEC_KEYS = ['tr', 'rv', 'se', 'ss', 'early', 'e0', 'e1', 'e2', 'e3', 's0', 's1', 's2', 's3']
+SPEC_KEYS = ['consts', 'tr', 'rv', 'se', 'ss', 'early', 'e0', 'e1', 'e2', 'e3', 's0', 's1', 's2', 's3']
 
 
 def _repo_text(rel):
@@ -58,6 +59,31 @@ def _repo_text(rel):
         except OSError:
             continue
     return ''
+
+
+def gen_consts(v):
+    """Regenerate coq/Gen.v from the tree under test on every run.  Header constants are printed by a program
+    compiled against the headers; constants that are only defined in a .cpp file (EPoller.cpp) are taken as the
+    C++ initialiser expression found in that file and evaluated by the same compiled program; the harness
+    prints the values the linked code really uses (payload K) and the check compares them."""
+    import re
+    ents = [('USEC_IN_SECONDS', 'ola::USEC_IN_SECONDS'), ('ONE_THOUSAND', 'ola::ONE_THOUSAND'),
+            ('POLL_INTERVAL_SECOND', 'ola::io::SelectServer::POLL_INTERVAL_SECOND'),
+            ('POLL_INTERVAL_USECOND', 'ola::io::SelectServer::POLL_INTERVAL_USECOND'),
+            ('C_EPOLLIN', 'EPOLLIN'), ('C_EPOLLOUT', 'EPOLLOUT'), ('C_EPOLLHUP', 'EPOLLHUP'),
+            ('C_EPOLLRDHUP', 'EPOLLRDHUP'), ('C_FD_SETSIZE', 'FD_SETSIZE'),
+            ('INVALID_DESCRIPTOR_PLUS_1', 'ola::io::INVALID_DESCRIPTOR + 1'),
+            ('INVALID_TIMEOUT_VALUE', 'reinterpret_cast<uintptr_t>(ola::thread::INVALID_TIMEOUT)')]
+    src = _repo_text('common/io/EPoller.cpp')
+    for name in ('MAX_EVENTS', 'READ_FLAGS', 'MAX_FREE_DESCRIPTORS'):
+        m = re.search(r'EPoller::%s\s*=\s*([^;]+);' % name, src)
+        if not m:
+            return 'genconsts: EPoller::%s not found in common/io/EPoller.cpp' % name
+        ents.append(('EP_' + name, m.group(1).strip()))
+    return v.gen_consts_cpp(ID, ['sys/epoll.h', 'sys/select.h', 'ola/Clock.h', 'ola/io/SelectServer.h',
+                                 'ola/io/Descriptor.h', 'ola/thread/SchedulerInterface.h'],
+                            ents, _os.path.join(v.VERIF, 'props', ID, 'coq', 'Gen.v'),
+                            module_comment='C16 constants')
 
 
 def _internal_keys():
@@ -253,6 +279,31 @@ def _many_cancel_cases(rng, quick):
                                   ['a10', 'x', 'c0', 'c1', 'r1,2,0', 'a2', 'x1:s', 'a2', 'x1', 'a20', 'x'])
 
 
+def _composition_case(rng):
+    """whole SelectServer iterations: timers registered directly, from a loop callback (L) and from a ready
+    descriptor's on_data handler (D; the poller then does not sleep), mixed with sleeping iterations"""
+    ops = []
+    for _ in range(rng.choice([3, 5, 8, 10])):
+        k = rng.random()
+        us = rng.choice([0, 0, 1, 500, 999, 1000, 1500, 2000, 5000])
+        rep = rng.random() < 0.25 and us > 0
+        if k < 0.2:
+            ops.append('i%d,%d' % (rep, us))
+        elif k < 0.4:
+            ops += ['L%d,%d' % (rep, us), rng.choice(['x', 'y2000', 'y500'])]
+        elif k < 0.6:
+            ops += ['D%d,%d' % (rep, us), rng.choice(['x', 'y2000', 'y20000'])]
+        elif k < 0.7:
+            du = rng.choice([0, 700, 1000])
+            ops += ['L%d,%d' % (rep, us), 'D%d,%d' % (rng.random() < 0.2 and du > 0, du), rng.choice(['x', 'y3000'])]
+        elif k < 0.9:
+            ops.append('y%d' % rng.choice([0, 500, 1000, 1500, 3000, 20000]))
+        else:
+            ops.append('a%d' % rng.choice([1, 499, 1000]))
+    ops.append('y5000'); ops.append('x')
+    return 'S ' + ';'.join(ops)
+
+
 def _sleep_case(rng):
     """idle RunOnce(block interval) with the poller sleeping on the virtual clock: sub-millisecond distances to
     the next deadline (EPoller sleeps whole milliseconds, SelectPoller the exact time)"""
@@ -277,6 +328,7 @@ def _sleep_case(rng):
 
 def gen_cases(rng, tier):
     quick = tier == 'quick'
+    yield 'K'
     for _ in range(1 if quick else 20):
         for c in _many_timer_cases(rng):
             yield c
@@ -284,6 +336,8 @@ def gen_cases(rng, tier):
         yield c
     for _ in range(300 if quick else 20000):
         yield _sleep_case(rng)
+    for _ in range(300 if quick else 20000):
+        yield _composition_case(rng)
     for _ in range(400 if quick else 20000):
         yield _ss_case(rng)
     for _ in range(60 if quick else 1500):
